@@ -8,6 +8,9 @@ import GrVerif.Proofs.RulesLoad
 import GrVerif.Proofs.GlyphLoad
 import GrVerif.Proofs.FaceLoad
 import GrVerif.Proofs.GlyphGfx
+import GrVerif.Proofs.FaceLoadAll
+import GrVerif.Proofs.NameLoad
+import GrVerif.Proofs.CmapDirect
 import GrVerif.Props.C13
 import GrVerif.Props.C14
 /-!
@@ -203,6 +206,38 @@ theorem face_loading_total (silf gloc glat feat sill : List Nat) (numGlyphsGraph
     (hb : ∀ x ∈ gloc, x < 256) (hs : gloc.length < 18446744073709551616) :
     ∃ r, loadFace silf gloc glat feat sill numGlyphsGraphics preload = .ok r :=
   loadFace_total silf gloc glat feat sill numGlyphsGraphics preload hb hs
+
+/-- **`gr_make_face*` over every table but `cmap` and `name`** – `face_loading_total` with the graphics tables inside the model: `head`, `hhea`,
+`hmtx`, `maxp`, `loca`, `glyf` present or not and of any bytes (`Face::Table`'s size test and `TtfUtil::CheckTable` are modelled), the first
+half of `GlyphCache::Loader::Loader`, both halves of `read_glyph`, `unitsPerEm`; the five Graphite tables of any bytes; loading on demand
+or preloading; the cmap usable or not -/
+theorem face_loading_all_total (t : AllTables) (preload cmapOK : Bool)
+    (hmb : ∀ b, t.maxp = some b → ∀ x ∈ b, x < 256) (hb : ∀ x ∈ t.gloc, x < 256) (hs : t.gloc.length < 18446744073709551616) :
+    ∃ r, loadFaceAll t preload cmapOK = .ok r :=
+  loadFaceAll_total t preload cmapOK hmb hb hs
+
+/-- … and with the cmap inside the model as well: its `Face::Table` test and, for a face made without `gr_face_cacheCmap`, the search
+for a Unicode BMP subtable (`FindCmapSubtable` over the preference list, `CheckCmapSubtable4`) – twelve tables, any bytes -/
+theorem face_loading_with_cmap_total (t : AllTables) (cmap : Option (List Nat)) (preload cacheCmap : Bool)
+    (hmb : ∀ b, t.maxp = some b → ∀ x ∈ b, x < 256) (hb : ∀ x ∈ t.gloc, x < 256) (hs : t.gloc.length < 18446744073709551616) :
+    ∃ r, loadFaceCmap t cmap preload cacheCmap = .ok r :=
+  loadFaceCmap_total t cmap preload cacheCmap hmb hb hs
+
+/-- **the direct cmap as a whole** (C13's in-bounds theorems composed with the search for the subtables): for every cmap table `Face::Table`
+hands out, choosing the Unicode subtables and – when a BMP subtable was found, which is what makes a `DirectCmap` usable – looking up any code
+point reads nothing outside the table -/
+theorem direct_cmap_total (t : Buf) (h4 : 4 ≤ t.size) :
+    ∃ bmp smp, Cmap.bmpSubtable t = .ok bmp ∧ Cmap.smpSubtable t = .ok smp ∧ (bmp.isSome → ∀ usv, ∃ g, Cmap.directGet t bmp smp usv = .ok g) :=
+  Cmap.direct_cmap_in_bounds t h4
+
+/-- **the name table**: `NameTable`'s constructor (with `setPlatformEncoding`) for every byte string, platform and encoding, and `getName` on
+what it accepted for every language and name id: the header, the name records and the string the chosen record names are read inside the
+table (the record count is tested in `size_t` arithmetic that wraps for a count of 0 – then the one record `getName` may look at is still
+inside the 18 bytes the first test insists on) -/
+theorem name_table_total (b : List Nat) (plat enc langId nameId : Nat) :
+    ∃ r, nameInit b plat enc = .ok r ∧ ∀ t, r = some t → ∃ v, getNameUnits b t langId nameId = .ok v := by
+  obtain ⟨r, e, h⟩ := nameInit_total b plat enc
+  exact ⟨r, e, fun t ht => getNameUnits_total b t (h t ht) langId nameId⟩
 
 /-- **the graphics half of `read_glyph`** – `TtfUtil::LocaLookup`, `GlyfLookup`, `GlyfBox` and `HorMetrics` as the glyph cache uses them: for
 every glyph id and all bytes of `head`, `hhea`, `hmtx`, `loca`, `glyf` of the sizes `TtfUtil::CheckTable` insists on (`head ≥ 54`, `hhea ≥ 36`,
